@@ -52,6 +52,15 @@ func cipherOf(name string) cipherfs.Cipher {
 	if name == "tagged" {
 		return extcfs.NewDefaultCipher()
 	}
+	if name == "tagged2" {
+		// the general constructor with another default tag (not a palindrome in either byte order), reading both
+		raw := aesgcm256cfs.NewCipher()
+		c, err := extcfs.NewCipher(extcfs.CipherKey(0x01020304), extcfs.CipherMap{extcfs.CipherKey(0x01020304): raw, extcfs.AESGCM256CFS: raw})
+		if err != nil {
+			panic("verif: " + err.Error())
+		}
+		return c
+	}
 	return aesgcm256cfs.NewCipher()
 }
 
